@@ -195,6 +195,7 @@ func (intp *Interpreter) executeOne(obj Object, execProc bool) error {
 	// 	fmt.Println("|-", intp.stackString(), "|", intp.objectString(obj))
 	// }
 
+	counted := execProc
 	if execProc {
 		if intp.execStackDepth >= 100 {
 			return intp.e(eExecstackoverflow, "exec stack overflow")
@@ -264,6 +265,15 @@ recurseTail:
 
 	case Procedure:
 		if execProc {
+			if !counted {
+				// a procedure reached through an executable name nests, too
+				if intp.execStackDepth >= 100 {
+					return intp.e(eExecstackoverflow, "exec stack overflow")
+				}
+				intp.execStackDepth++
+				defer func() { intp.execStackDepth-- }()
+				counted = true
+			}
 			if len(o) == 0 {
 				return nil
 			}
